@@ -394,7 +394,7 @@ def _w4_w5(ctx, R, name, cls, funcs, module):
 @register("C16",
           "Static effect analysis of the three composers over the call graph reachable from run(): W1 every operation that can change the "
           "netlist (calls of IR mutators, stores to element properties, item stores/deletes on elements, in-place mutation of a value read out "
-          "of an element's data) must be on the documented allow-list (EDIF: library/cell reordering, EDIF.identifier / EDIF.rename, "
+          "of an element's data) must be on the documented allow-list (EDIF: library/cell reordering, EDIF.identifier / EDIF.rename — an identifier only where none is recorded yet —, "
           "defaulting an absent netlist name; Verilog and EBLIF: nothing) — containers and elements created inside the composer are not "
           "netlist state; W2 the opened output is closed on every normal path of run (must-dataflow over helper calls); W4 no clock / "
           "random / id / hash source other than the EDIF timestamp, no emission loop over a set; W5 accumulators live on the composer "
